@@ -148,6 +148,7 @@ func init() {
 			// that stays consistent by itself), placed before the plain entries of its layer: its fields are its own, they
 			// apply neither to the entries after it nor to the entries of the layers above
 			fieldsLabels := map[int]map[string]string{}
+			shadowLayers := map[int]bool{}
 			for li, L := range t.Layers {
 				if r.Intn(3) != 0 {
 					continue
@@ -156,6 +157,13 @@ func init() {
 				fieldsLabels[li] = kv
 				e := Obj{"pairs": toObj(kv), "includeTemplates": true,
 					"fields": []interface{}{Obj{"path": "spec/selector", "kind": "Service", "version": "v1", "create": true}}}
+				if r.Intn(6) == 0 {
+					// the own spec names metadata/labels for ONE kind: the labels still belong in every resource's metadata
+					kv = map[string]string{"shadow": "s"}
+					fieldsLabels[li] = kv
+					shadowLayers[li] = true
+					e = Obj{"pairs": toObj(kv), "fields": []interface{}{Obj{"path": "metadata/labels", "kind": "NoSuchKind", "create": true}}}
+				}
 				old, _ := L.Kust["labels"].([]interface{})
 				L.Kust["labels"] = append([]interface{}{e}, old...)
 				if len(old) == 0 && r.Intn(2) == 0 {
@@ -191,7 +199,9 @@ func init() {
 					L := t.Layers[li]
 					for k, v := range fieldsLabels[li] {
 						wantMeta[k] = v
-						wantTmpl[k] = v
+						if !shadowLayers[li] {
+							wantTmpl[k] = v
+						}
 					}
 					for k, v := range L.MetaLabels {
 						wantMeta[k] = v
@@ -207,6 +217,12 @@ func init() {
 				}
 				ml := strMap(mustGet(d, "metadata", "labels"))
 				for k, v := range wantMeta {
+					if ml[k] != v && k == "shadow" {
+						// recogniser of finding C08-K1: FsSlice.MergeOne takes the incoming metadata/labels spec for "already there" when
+						// the entry's own spec names metadata/labels for some kind, so the labels reach no other kind's metadata
+						o.fail("own-spec-shadows-metadata-labels", fmt.Sprintf("%s %s: metadata label %s is %q, the entry gives %q", g.Kind, g.Name, k, ml[k], v), cs, t.Describe(), ml, wantMeta)
+						continue
+					}
 					if ml[k] != v {
 						o.fail("label-missing-in-metadata", fmt.Sprintf("%s %s: metadata label %s is %q, the directives give %q", g.Kind, g.Name, k, ml[k], v), cs, t.Describe(), ml, wantMeta)
 					}
